@@ -86,6 +86,12 @@ class C06(Prop):
                 p = rng.choice([0.01, 0.3, 0.5, 1.0])
                 u = rng.choice([0.0, p, min(p + 1e-9, 0.999999), rng.random()])
                 yield {'kind': 'transd', 'dc': dc, 'w': self._widths(rng), 'xi': self._state(rng, dc), 'zs': zs, 'p': p, 'u': u}
+        # multi-event chains: every event is proposed with its own double-couple flag
+        for i in range(30 if tier == 'quick' else 600):
+            ne = rng.choice([2, 3])
+            dcs = [rng.random() < 0.4 for _ in range(ne)]
+            yield {'kind': 'shift-multi', 'dcs': dcs, 'ws': [self._widths(rng) for _ in range(ne)], 'xis': [self._state(rng, d) for d in dcs],
+                   'zs': [rng.gauss(0, 1) for _ in range(60 * ne)]}
         classes = [0.0, 0.1, 0.4, 0.8, 1.0]
         depth = 3 if tier == 'quick' else 6
         for ln in range(1, depth + 1):
@@ -131,6 +137,21 @@ class C06(Prop):
             mt = np.asarray(alg.convert_sample({kk: x[kk] for kk in KEYS}), dtype=float).flatten()
             res['mt'] = [float(v) for v in mt]
             return res
+        if k == 'shift-multi':
+            ne = len(case['dcs'])
+            alg = self.mc.IterativeMetropolisHastingsGaussianTape(number_events=ne, initial_sample='grid', learning_length=10)
+            alg.dc = list(case['dcs'])
+            alg.alpha = [dict(w) for w in case['ws']]
+            alg.xi = [dict(x) for x in case['xis']]
+            st = Stream(np, case['zs'])
+            o_randn, o_rand = np.random.randn, np.random.rand
+            try:
+                np.random.randn = st.randn
+                np.random.rand = lambda *a: 0.5
+                alg.new_sample()
+            finally:
+                np.random.randn, np.random.rand = o_randn, o_rand
+            return {'xs': [self._tof(x) for x in alg.xi_1], 'dc_after': list(alg.dc) if isinstance(alg.dc, list) else alg.dc, 'consumed': st.i}
         if k == 'adapt':
             cls = 'IterativeTransDMetropolisHastingsGaussianTape' if case['transd'] else 'IterativeMetropolisHastingsGaussianTape'
             alg = getattr(self.mc, cls)(initial_sample='random', learning_length=10 ** 9, acceptance_rate_window=case['window'])
@@ -251,6 +272,39 @@ class C06(Prop):
                 g = next((case['xi']['gamma'] + case['w']['gamma'] * z for z in zs if abs(case['xi']['gamma'] + case['w']['gamma'] * z) <= PI / 6), None)
                 if g is None or not close(g, x['gamma'], atol=1e-12):
                     out.append(('first-in-range', 'gamma proposal %r is not the first in-range draw %r about the current state' % (x['gamma'], g), None))
+        elif k == 'shift-multi':
+            # reference: the events are proposed one after the other from the same stream, each with the first in-range draw
+            zs = list(case['zs'])
+            pos = 0
+
+            def first(cur, wd, lo, hi):
+                nonlocal pos
+                while True:
+                    v = cur + wd * zs[pos]
+                    pos += 1
+                    if lo <= v <= hi:
+                        return v
+            for e, (dc, w, xi, x) in enumerate(zip(case['dcs'], case['ws'], case['xis'], impl['xs'])):
+                if dc:
+                    if x['gamma'] != 0 or x['delta'] != 0:
+                        out.append(('not-dc', 'event %d is double-couple constrained, proposal has gamma=%r delta=%r' % (e, x['gamma'], x['delta']), None))
+                else:
+                    g = first(xi['gamma'], w['gamma'], -PI / 6, PI / 6)
+                    d = first(xi['delta'], w['delta'], -PI / 2, PI / 2)
+                    if not (close(g, x['gamma'], atol=1e-12) and close(d, x['delta'], atol=1e-12)):
+                        out.append(('first-in-range', 'event %d (unconstrained): proposal gamma=%r delta=%r, first in-range draws about its state '
+                                    'give %r, %r' % (e, x['gamma'], x['delta'], g, d), None))
+                        break
+                kp = (xi['kappa'] + w['kappa'] * zs[pos]) % (2 * PI)
+                pos += 1
+                h = first(xi['h'], w['h'], 0.0, 1.0)
+                sg = first(xi['sigma'], w['sigma'], -PI / 2, PI / 2)
+                if not (close(kp, x['kappa'], atol=1e-9) and close(h, x['h'], atol=1e-12) and close(sg, x['sigma'], atol=1e-12)):
+                    out.append(('first-in-range', 'event %d: strike/dip/slip proposal (%r, %r, %r), first in-range draws give (%r, %r, %r)' %
+                                (e, x['kappa'], x['h'], x['sigma'], kp, h, sg), None))
+                    break
+            if impl['dc_after'] != list(case['dcs']):
+                out.append(('not-dc', 'the per-event double-couple flags changed from %r to %r' % (case['dcs'], impl['dc_after']), None))
         elif k == 'adapt':
             for si, step in enumerate(impl['steps']):
                 missing = [kk for kk in impl['keys'] if kk not in step]
